@@ -419,7 +419,7 @@ func reqString(m *mock) string {
 // ---------------------------------------------------------------- run
 
 func run(c *hc.Ctx) error {
-	r := c.Rng
+	r := c.Rng.Fork() // hc.NewRNG(seed) streams of neighbouring seeds are the same sequence shifted by one draw and re-synchronise; a fork lands far away
 	floodBudget := c.N(6, 40)
 	var cases []*dcase
 	add := func(class string, size int64, ps, threads int, withScript bool) {
